@@ -305,6 +305,16 @@ impl BudgetEnforcer {
     ///
     /// Returns `Err(BudgetBreach)` as soon as a limit is exceeded.
     pub fn observe(&mut self, ev: &Event) -> Result<(), BudgetBreach> {
+        if self.policy == EnforcingPolicy::PerDocument && matches!(ev, Event::DocumentStart(_)) {
+            // Every document starts from zero: counters, distinct anchors and (after error
+            // recovery abandoned a document half-way) the nesting state. This comes before
+            // any limit is looked at, so a breach in one document cannot outlive it.
+            self.report.reset();
+            self.defined_anchors.clear();
+            self.depth = 0;
+            self.containers.clear();
+            return Ok(());
+        }
         self.report.events += 1;
         if self.report.events > self.budget.max_events {
             return Err(BudgetBreach::Events {
@@ -385,20 +395,12 @@ impl BudgetEnforcer {
                 self.handle_alias();
             }
             Event::DocumentStart(_explicit) => {
-                if self.policy == EnforcingPolicy::PerDocument {
-                    // Every document starts from zero: counters, distinct anchors and (after
-                    // error recovery abandoned a document half-way) the nesting state.
-                    self.report.reset();
-                    self.defined_anchors.clear();
-                    self.depth = 0;
-                    self.containers.clear();
-                } else {
-                    self.report.documents += 1;
-                    if self.report.documents > self.budget.max_documents {
-                        return Err(BudgetBreach::Documents {
-                            documents: self.report.documents,
-                        });
-                    }
+                // (Per-document enforcement is handled at the top.)
+                self.report.documents += 1;
+                if self.report.documents > self.budget.max_documents {
+                    return Err(BudgetBreach::Documents {
+                        documents: self.report.documents,
+                    });
                 }
             }
             Event::DocumentEnd => {}
